@@ -119,11 +119,21 @@ class SymKeyDict(SymContainer):
 
 
 class SymIntSet(SymContainer):
-    """set of ints as a z3 array Int -> Bool (mutable: add/remove rebind)"""
+    """set of ints as a z3 array Int -> Bool (mutable: add/remove rebind).  With ``keyfn`` the elements are
+    other values (e.g. registers) identified by an integer key term."""
 
-    def __init__(self, name, arr=None):
+    def __init__(self, name, arr=None, keyfn=None):
         self.name = name
         self.arr = arr if arr is not None else z3.Array(f"{name}!s", z3.IntSort(), z3.BoolSort())
+        self.keyfn = keyfn
+
+    def key(self, it, x):
+        x = _fold_opt(it, x)
+        if self.keyfn is not None:
+            return self.keyfn(x)
+        if x is None or not isinstance(x, (int, SInt)) or isinstance(x, bool):
+            return None
+        return lift_int(x)
 
     def snapshot(self):
         return self.arr
@@ -349,10 +359,10 @@ def contains(it, c, x):
     if isinstance(c, SymSet):
         return c.contains(it, x)
     if isinstance(c, SymIntSet):
-        x = _fold_opt(it, x)
-        if x is None or not isinstance(x, (int, SInt)):
+        k = c.key(it, x)
+        if k is None:
             return False
-        return mk_bool(z3.Select(c.arr, lift_int(x)))
+        return mk_bool(z3.Select(c.arr, k))
     if isinstance(c, SymKeyDict):
         return c.find(it, x) is not None
     if isinstance(c, SegStr):
@@ -1375,18 +1385,23 @@ def _skd_pop(it, d, k, *default):
 
 
 def _sis_add(it, s, x):
-    s.arr = z3.Store(s.arr, lift_int(_fold_opt(it, x)), z3.BoolVal(True))
+    k = s.key(it, x)
+    if k is None:
+        raise Unsupported(f"element {x!r} for symbolic set")
+    s.arr = z3.Store(s.arr, k, z3.BoolVal(True))
 
 
 def _sis_remove(it, s, x):
-    xt = lift_int(_fold_opt(it, x))
-    if not it.decide(z3.Select(s.arr, xt)):
+    xt = s.key(it, x)
+    if xt is None or not it.decide(z3.Select(s.arr, xt)):
         raise _PyExc(KeyError(_conc_or_str(x)))
     s.arr = z3.Store(s.arr, xt, z3.BoolVal(False))
 
 
 def _sis_discard(it, s, x):
-    s.arr = z3.Store(s.arr, lift_int(_fold_opt(it, x)), z3.BoolVal(False))
+    k = s.key(it, x)
+    if k is not None:
+        s.arr = z3.Store(s.arr, k, z3.BoolVal(False))
 
 
 def _ss_call(name):
